@@ -52,6 +52,8 @@ pub mod c13;
 #[cfg(any(feature = "p14"))]
 pub mod c14;
 #[cfg(any(feature = "p14"))]
+pub mod conv;
+#[cfg(any(feature = "p14"))]
 pub mod nested;
 #[cfg(any(feature = "p15"))]
 pub mod c15;
